@@ -1060,7 +1060,7 @@ def judge_resource(cls, expr, status, payload):
         return (cls, "cpu-deadline", prim), (key, (
             f"Mitochondria(timeout_seconds={ENGINE_TIMEOUT}).metabolize({short(expr, 60)}) was still running after "
             f"{DEADLINE_S} s of CPU time ({int(DEADLINE_S / ENGINE_TIMEOUT)}x its configured timeout) and had to be "
-            f"killed; the evaluator was inside {prim or 'no recognised heavy primitive'}; expected a result within a "
+            f"killed; first heavy primitive in evaluation order: {prim or 'none recognised'}; expected a result within a "
             f"bound governed by the timeout"))
     if status == "stuck":
         raise common.HarnessError(f"resource child for {short(expr, 60)} used < {DEADLINE_S}s CPU in {WALL_BACKSTOP}s "
@@ -1126,6 +1126,12 @@ def run(ctx):
     nproc = common.NPROC
     total = 0
     distinct = 0
+    phases = []
+    _t = [time.time()]
+
+    def lap(name):
+        phases.append(f"{name}={time.time() - _t[0]:.1f}s")
+        _t[0] = time.time()
 
     # ---- 1a confinement: node classes
     found, forbidden, unprobed = node_class_table()
@@ -1144,6 +1150,7 @@ def run(ctx):
     if unprobed:
         ctx.note(f"expression node classes of this interpreter with no probe (not judged): {unprobed}")
 
+    lap("confinement")
     # ---- 1b name universe
     names, fancy = name_universe()
     allnames = names + sorted(fancy)
@@ -1168,6 +1175,7 @@ def run(ctx):
     if extra_ops:
         ctx.note(f"operator classes accepted beyond the documented set (observation, not judged): {extra_ops}")
 
+    lap("names+tricks")
     # ---- 2 totality
     hostile, deep = hostile_strings()
     light = [("probe", fill(t, p)) for _, p in PROBES for t, _, _ in contexts(1)] + [("name", n) for n in allnames]
@@ -1185,6 +1193,7 @@ def run(ctx):
     ros = explore.explore(RosModel(), ctx, 60, nproc=1, label="ros")
     total += ros["transitions"]
 
+    lap("totality+ros")
     # ---- 3 resource
     cases = resource_cases(ctx.tier)
     rot = common.rotate(cases, ctx.seed)
@@ -1208,6 +1217,9 @@ def run(ctx):
     if slow_cheap:
         ctx.note(f"returned but used more than 10% of the deadline (margin eroded, not judged): {slow_cheap[:5]}")
 
+    lap("resource")
+    if os.environ.get("VERIF_C01_TIMING"):
+        print("C01 phases:", " ".join(phases))
     if unvetted:
         ctx.note(f"names accepted that the harness does not know as documented-pure (observation): {unvetted}")
     ctx.coverage.update(
